@@ -13,9 +13,11 @@ Dirs     == <<"", "ca", "ca/sub", "x/y/z">>
 SuffixList == <<"yaml", "yml", "json", "YAML", "Yml", "JSON">>
 Layouts  == {"implicit", "explicit", "mixed", "explicitClash", "aliasIsBase", "sameBase", "sameBaseFixed", "dotted"}
 
-Base(i)  == CASE i = 1 -> "e1" [] i = 2 -> "e2" [] i = 3 -> "e3" [] i = 4 -> "e4" [] i = 5 -> "e5" [] OTHER -> "e6"
+\* base names as users choose them: they end in letters that also occur in the suffixes (an alias derived by trimming a
+\* character set instead of the suffix would come out shorter), and one is a prefix of another
+Base(i)  == CASE i = 1 -> "ca" [] i = 2 -> "sally" [] i = 3 -> "emily" [] i = 4 -> "jason" [] i = 5 -> "c" [] OTHER -> "root"
 Expl(i)  == CASE i = 1 -> "x1" [] i = 2 -> "x2" [] i = 3 -> "x3" [] i = 4 -> "x4" [] i = 5 -> "x5" [] OTHER -> "x6"
-Dotted(i) == CASE i = 1 -> "e1.v2" [] i = 2 -> "e2.v2" [] i = 3 -> "e3.old" [] i = 4 -> "e.4" [] i = 5 -> "e5.x" [] OTHER -> "e6.y"
+Dotted(i) == CASE i = 1 -> "e1.v2" [] i = 2 -> "e2.yaml" [] i = 3 -> "e3.old" [] i = 4 -> "e.4" [] i = 5 -> "sam.l" [] OTHER -> "e6.y"
 
 BaseIn(l, i)  == IF l = "dotted" THEN Dotted(i)
                  ELSE IF l \in {"sameBase", "sameBaseFixed"} /\ i = 2 THEN Base(1) ELSE Base(i)
